@@ -47,7 +47,10 @@ UNIT = {
   'XRefTable::get': {'kind': 'fn', 'file': X, 'container': TAB, 'name': 'get', 'props': ['C02', 'C01', 'C18'],
      'ensures': [('get_in_table', '(id as int) < self.entries@.len() ==> r == Ok::<XRef, PdfError>(self.entries@[id as int])'),
                  ('get_beyond_table', '(id as int) >= self.entries@.len() ==> r == Err::<XRef, PdfError>(PdfError::UnspecifiedXRefEntry { id })')],
-     'rewrites': [{'rule': 'R5', 'find': 'Some(&entry) => Ok(entry),', 'replace': 'Some(entry_) => { let entry = *entry_; Ok(entry) },'}]},
+     # R5 by shape (any binding name, block or expression arm); count '*': a body without such a pattern (explicit bounds
+     # test + indexing) is read verbatim
+     'rewrites': [{'rule': 'R5', 'regex': r'Some\(&(\w+)\)\s*=>\s*\{', 'replace': r'Some(\1_) => { let \1 = *\1_;', 'count': '*'},
+                  {'rule': 'R5', 'regex': r'Some\(&(\w+)\)\s*=>\s*([^,{}]*),', 'replace': r'Some(\1_) => { let \1 = *\1_; \2 },', 'count': '*'}]},
   'XRefTable::set': {'kind': 'fn', 'file': X, 'container': TAB, 'name': 'set', 'props': ['C02', 'C01'],
      # call sites (file.rs Storage::save): ids are keys of `changes` or a promised id; each was < refs.len()
      # when recorded (create/promise push first; update checks refs.get(id)?) and refs only grows
